@@ -1,7 +1,9 @@
 // C15: live paths reconcile with configuration after reloads.
-// (a) histories: every sequence of <=3 (quick) / <=4 (thorough) configurations out of 12 over static, regexp
-//     and all_others entries with base / hot-reloadable / non-hot-reloadable variants, on the real
-//     pathManager+path under vsched's default schedule (sequentially driven), with live publishers and readers;
+// (a) histories: every sequence of <=3 (quick) / <=4 (thorough) configurations out of 14 over static, regexp
+//
+//	and all_others entries with base / hot-reloadable / non-hot-reloadable variants, on the real
+//	pathManager+path under vsched's default schedule (sequentially driven), with live publishers and readers;
+//
 // (b) schedules: two back-to-back hot reloads race through the manager's `go pa.reloadConf` goroutines.
 package main
 
@@ -40,6 +42,9 @@ var cfgs = []cfg{
 	{"p,re(p)(.*)", "paths:\n  p:\n" + ovr + "  \"~^(p)(.*)$\":\n" + ovr},
 	{"p,q", "paths:\n  p:\n" + ovr + "  q:\n" + ovr},
 	{"re(p)(.*),all_others+hot", "paths:\n  \"~^(p)(.*)$\":\n" + ovr + "  all_others:\n" + ovr + hot},
+	// an entry of higher priority appears next to an entry that stays untouched
+	{"re(p)(.*)+cold,all_others", "paths:\n  \"~^(p)(.*)$\":\n" + ovr + cold + "  all_others:\n" + ovr},
+	{"re(p)(.*)+hot,rep(.*)", "paths:\n  \"~^(p)(.*)$\":\n" + ovr + hot + "  \"~^p(.*)$\":\n" + ovr},
 }
 
 func main() {
